@@ -280,7 +280,7 @@ if a.tier == "exhaustive":
     lines, n = exhaustive()
     info = {"histories": n, "exhaustive_bound": "all programs of <= 3 operations over a 12-operation alphabet on a 2x5 buffer x 4 auxiliary prologues"}
 else:
-    N = 1400 if a.tier == "quick" else 9000
+    N = 2500 if a.tier == "quick" else 20000
     for _ in range(N):
         lines.extend(random_history())
     info = {"histories": N}
